@@ -6,7 +6,9 @@ import QProofs.PipelineWF
   `quantizePure` succeeds on it (evaluated below).
 * Counterexamples (evaluated with `#eval`, outputs pinned by `#guard_msgs`): inputs that satisfy the
   three original fields of `NF` (`wf`, `tagged`, `noBlockwise`) but violate one added field, and on
-  which the conclusion of `quantizePure_wf` (B) resp. a field of `GenInstsOK.ReqOK` (C, D, F) fails.
+  which a field of `GenInstsOK.ReqOK` (C, D, F) fails.
+* B is a *former* counterexample (RESHAPE of a constant), kept as a regression: since the repair of
+  D22 in `Mat.standardOp` it yields a well-formed result, and `NF` has no field about it any more.
   These evaluations are illustrations (compiled evaluation), not part of any proof.
 -/
 open Graph Mat Cfg Pipeline PipeNF
@@ -39,7 +41,7 @@ theorem slots (i : Nat) (a : Int) (h : opA.inputs[i]? = some a) : (i = 0 ∧ a =
 theorem nfA : PipelineWF.NF envA stA := by
   have hsgs : ∀ sg ∈ envA.model.subgraphs, sg = sgA := by
     intro sg h; simpa [envA, mA] using h
-  refine ⟨by decide, by decide, ?_, ?_, ?_, ?_, ?_, ?_⟩
+  refine ⟨by decide, by decide, ?_, ?_, ?_, ?_, ?_⟩
   · intro e he r hr w hw
     have : e = (".*", [⟨".*", "*", Tables.algMinMax, cfgWO⟩]) := by simpa [stA] using he
     subst this
@@ -79,11 +81,6 @@ theorem nfA : PipelineWF.NF envA stA := by
     · decide
     · decide
     · omega
-  · intro sg hsg op hop k hk hpt
-    rw [hsgs sg hsg] at hop
-    obtain ⟨rfl, rfl⟩ := named op hop k hk
-    exact absurd hpt (by decide)
-
 
 /-! ## evaluations -/
 def f32 (sh : List Nat) (l : List Rat) : Arith.FArr := ⟨⟨sh, l⟩, .f32⟩
@@ -98,10 +95,14 @@ def okOf {α β} (x : PyM α) (f : α → β) : Option β := match x with | .ok 
 #guard_msgs in
 #eval okOf (quantizePure rxAll envA stA none) fun r => (WF.modelOK r.1, Skeleton.sameModelSkeleton mA r.1)
 
-/-! ### B (`passThrough`): RESHAPE of a float constant under static-range quantization, the result
-tensor having its own (empty) buffer.  The three original `NF` fields hold, yet the returned graph is
-NOT well-formed: the result's producer request carries the operand's quantized data, and
-`quantize_tensor` writes it into the result's buffer, turning an operator result into a constant. -/
+/-! ### B (no `NF` field any more): RESHAPE of a float constant under static-range quantization, the
+result tensor having its own (empty) buffer.  Before the repair of D22 the result's producer request
+carried the operand's quantized data, `quantize_tensor` wrote it into the result's buffer (turning an
+operator result into a constant) and the returned graph was NOT well-formed, which is why `NF` used
+to require a non-constant data operand for the pass-through operators.  Now `Mat.standardOp` hands
+the results the operand's parameters without the quantized values: the run returns a well-formed
+graph of the same skeleton, no producer request carries data, and the constant operand's consumer
+request still does. -/
 def mB : Model :=
   { subgraphs := [{ tensors := [T "c" 0 [2,2] 1, T "s" 2 [1] 2, T "y" 0 [4] 3],
                     ops := [{ code := 0, inputs := [0,1], outputs := [2], orig := some 0 }],
@@ -110,10 +111,17 @@ def mB : Model :=
 def envB : Env := { model := mB, consts := [(1, [1,2,3,4])], adjY := [] }
 def qsB : Qsvs := [("c", some (f32 [1,1] [1], f32 [1,1] [4])), ("y", some (f32 [1] [1], f32 [1] [4]))]
 
-/-- info: (true, true, some false) -/
+/-- info: (true, true, some (true, true)) -/
 #guard_msgs in
 #eval (WF.modelOK mB, Skeleton.origTagged mB,
-  okOf (quantizePure rxAll envB (stOf Tables.algMinMax cfgSRQ) (some qsB)) fun r => WF.modelOK r.1)
+  okOf (quantizePure rxAll envB (stOf Tables.algMinMax cfgSRQ) (some qsB)) fun r =>
+    (WF.modelOK r.1, Skeleton.sameModelSkeleton mB r.1))
+
+/-- info: some (true, true) -/
+#guard_msgs in
+#eval okOf (generate rxAll envB (stOf Tables.algMinMax cfgSRQ) (some qsB)) fun rs =>
+  (rs.all fun r => r.producer.all fun p => p.param.all fun q => !Pipe.hasData q,
+   rs.any fun r => r.name == "c" && (r.consumers.getD []).any fun c => c.param.any Pipe.hasData)
 
 /-! ### C (`inputsNotConst`): a constant graph input: producer request `[addDequant]` (INPUT
 pseudo-operator) but consumer request `[quantTensor]`: `ReqOK.prodCons` fails. -/
